@@ -120,7 +120,7 @@ def get_instant(value: HINT_INSTANT) -> Instant:
         now = SystemDateTime.now()
         new = now.replace_time(time, disambiguate='raise')
         if new < now:
-            new = new.add(hours=24)
+            new = new.add(days=1, disambiguate='raise')
         return new.instant()
 
     raise ValueError()
